@@ -155,6 +155,10 @@ def _build(rows_spec, case):
 
     # the calls are a per-row function: half of the cases hand the rows over interleaved, reversed, shuffled or with a
     # few autosomal rows stacked at the end (seeded change C01j wrote per-chromosome results into consecutive slices)
+    # one table in six has no chromosome-X row at all (Y-only / autosomes + Y panels): the naming style and the Y label must
+    # not hinge on an X row being present (seeded changes C01m / C20m derived the labels from the presence of a "chrX" row)
+    if gen.pick(case, "noX", 6) == 0:
+        idx = [i for i in idx if recs[i][0].replace("chr", "") != "X"]
     # - not with the cn filter, which merges *adjacent* rows and so presupposes genomic order
     if not case.get("filter_cn"):
         perm = gen.row_order(case, [recs[i][0] for i in idx])
